@@ -193,6 +193,26 @@ func (cr *clRun) issueAdmin(i int, op Op) {
 	cr.pump(time.Millisecond, nil)
 }
 
+// postResize sends one resize request through the controller's REST API (must run on a node goroutine).
+func (cr *clRun) postResize(size int64) error {
+	cc := cclient.NewControllerClient("http://10.0.0.1:9501")
+	v, err := cc.GetVolume()
+	if err != nil {
+		return err
+	}
+	body, _ := json.Marshal(map[string]string{"name": v.Name, "size": fmt.Sprint(size)})
+	resp, err := http.Post(v.Actions["resize"], "application/json", bytes.NewReader(body))
+	if err != nil {
+		return err
+	}
+	b, _ := io.ReadAll(resp.Body)
+	resp.Body.Close()
+	if resp.StatusCode >= 300 {
+		return fmt.Errorf("status %d: %s", resp.StatusCode, b)
+	}
+	return nil
+}
+
 func (cr *clRun) idleIO() bool {
 	for _, o := range cr.ios {
 		if !o.done {
